@@ -69,6 +69,11 @@ void handler_fire_stanza(xmpp_conn_t *conn, xmpp_stanza_t *stanza)
     const char *id, *ns, *name, *type;
     int ret;
 
+    /* enable all added handlers before any handler runs: a handler added by an
+       id handler below must not see the stanza being dispatched */
+    for (item = conn->handlers; item; item = item->next)
+        item->enabled = 1;
+
     /* call id handlers */
     id = xmpp_stanza_get_id(stanza);
     if (id) {
@@ -108,10 +113,6 @@ void handler_fire_stanza(xmpp_conn_t *conn, xmpp_stanza_t *stanza)
     ns = xmpp_stanza_get_ns(stanza);
     name = xmpp_stanza_get_name(stanza);
     type = xmpp_stanza_get_type(stanza);
-
-    /* enable all added handlers */
-    for (item = conn->handlers; item; item = item->next)
-        item->enabled = 1;
 
     item = conn->handlers;
     while (item) {
